@@ -95,6 +95,8 @@ pub fn span_ok(src: &str, (o, l): (usize, usize)) -> bool {
 }
 
 pub fn lex_err_str(e: &LexError) -> String {
+    // `{:?}` for the variants without a payload, so that a variant added to the lexer later does
+    // not break the build of the harness
     match e {
         LexError::UnexpectedToken => "UnexpectedToken".into(),
         LexError::UnterminatedString => "UnterminatedString".into(),
@@ -102,6 +104,8 @@ pub fn lex_err_str(e: &LexError) -> String {
         LexError::DisallowedBidirectionalOverride(c) => format!("DisallowedBidirectionalOverride:{}", *c as u32),
         LexError::DiscouragedUnicodeCodepoint(c) => format!("DiscouragedUnicodeCodepoint:{}", *c as u32),
         LexError::DisallowedControlCode(c) => format!("DisallowedControlCode:{}", *c as u32),
+        #[allow(unreachable_patterns)]
+        other => format!("{:?}", other),
     }
 }
 
